@@ -838,7 +838,7 @@ Definition case (cont : list (modid * content)) (imps : list (modid * (content *
 Definition stab (cont : list (modid * content)) (imps : list (modid * (content * list modid))) (an : list (modid * result))
   (sccs : list (list modid)) (rch : list (modid * modid)) (ents : list (modid * (meta * meta_ex * data)))
   (ign : list modid) (th : list (modid * nat)) (fs : FS) (o : opts) : bool :=
-  scc_stable (t_content cont) (t_imports imps) (fun _ _ _ => []) (fun _ => sccs) (t_ign ign) (mk_store ents) fs o.
+  scc_stable (t_content cont) (t_imports imps) (fun _ _ _ => []) (fun _ => sccs) (t_ign ign) (mk_store ents) o fs.
 """
 
 
@@ -1042,12 +1042,12 @@ def correspondence(ctx, hs: list[dict], results: list[dict], limit: int) -> None
         if (cse["idx"], cse["cfg"], cse["k"]) in diverging:
             explained += 1
             continue
-        for m, errs in cse["report"].items():
-            if got_rep.get(m) != errs:
+        for m, exp_errs in cse["report"].items():
+            if got_rep.get(m) != exp_errs:
                 bad += 1
                 if bad <= 3:
                     ctx.broke("C", "per-file diagnostics: model vs mypy", f"history {cse['idx']} [{cse['cfg']}] step {cse['k']} module {nm[m]}: "
-                              f"model {got_rep.get(m)} mypy {errs}", {"history": byidx[cse['idx']]["descs"][: cse['k'] + 1]})
+                              f"model {got_rep.get(m)} mypy {exp_errs}", {"history": byidx[cse['idx']]["descs"][: cse['k'] + 1]})
                 break
     ctx.add("traces_validated_against_impl", len(cases))
     ctx.add("evaluations", len(cases))
